@@ -50,7 +50,7 @@ class Gen:
             return idx(var(a), lit("int", r.randrange(ln)))
         if c < 0.65 and sc["structs"]:
             s, sid = r.choice(list(sc["structs"].items()))
-            f = r.choice(self.structs[sid - 1]["fields"])
+            f = r.choice(self.ifields(sid))
             return mem(var(s), f["n"])
         if c < 0.72 and sc["ptrs"]:
             p, (t, arr, k, ln) = r.choice(list(sc["ptrs"].items()))
@@ -102,7 +102,7 @@ class Gen:
         for a, (t, ln) in sc["arrs"].items():
             opts.append((idx(var(a), lit("int", r.randrange(ln))), t, a))
         for s, sid in sc["structs"].items():
-            f = r.choice(self.structs[sid - 1]["fields"])
+            f = r.choice(self.ifields(sid))
             opts.append((mem(var(s), f["n"]), f["t"]["n"], s))
         return r.choice(opts) if opts else None
 
@@ -364,7 +364,7 @@ class Gen:
         if k < 0.75:
             # automatic struct with a brace initialiser (bit-fields share storage units with their neighbours)
             sid = r.randrange(1, len(self.structs) + 1)
-            fs = self.structs[sid - 1]["fields"]
+            fs = self.ifields(sid)
             t = self.fresh("ls")
             out = [s_decl(t, St(sid), i_list([i_e(self.expr(sc, 2) if r.random() < 0.3 else self.lit_for(f["t"]["n"], small=r.random() < 0.5))
                                               for f in fs[:r.randrange(1, len(fs) + 1)]]))]
@@ -374,7 +374,7 @@ class Gen:
         if not sc["structs"]:
             return []
         sname, sid = r.choice(list(sc["structs"].items()))
-        f = r.choice(self.structs[sid - 1]["fields"])
+        f = r.choice(self.ifields(sid))
         if k < 0.9:
             t = self.fresh("t")
             out = [s_decl(t, St(sid), i_e(var(sname))), s_asg("=", mem(var(t), f["n"]), self.expr(sc)), s_obs(mem(var(t), f["n"]))]
@@ -384,7 +384,7 @@ class Gen:
             return out
         fs = [g for g in self.funcs if g.get("_sid") == sid]
         if r.random() < 0.4:
-            fl = self.structs[sid - 1]["fields"]
+            fl = self.ifields(sid)
             return [s_asg("=", var(sname), clit(St(sid), i_list([i_e(self.lit_for(q["t"]["n"])) for q in fl[:r.randrange(1, len(fl) + 1)]]))), s_obs(mem(var(sname), f["n"]))]
         if fs:
             return [s_call(fs[0]["name"], [var(sname), self.expr(sc, 2)], var(sname))]
@@ -443,6 +443,8 @@ class Gen:
         if c < 0.52 and depth == 0:
             return self.fpobj(sc)
         if c < 0.55:
+            return self.nested(sc) or [s_obs(self.expr(sc))]
+        if c < 0.55:
             return [s_obs(self.expr(sc))]
         if depth >= 2:
             return [s_obs(self.expr(sc))]
@@ -495,6 +497,51 @@ class Gen:
             return [s_call(f["name"], args, lv[0] if lv and r.random() < 0.85 else None)]
         return [s_obs(self.expr(sc))]
 
+    def ifields(self, sid):
+        """the integer (possibly bit-field) members; nested array / struct members come after them (see program())"""
+        return [f for f in self.structs[sid - 1]["fields"] if f["t"]["k"] == "i" and f["n"] != "fsep"]
+
+    def nested(self, sc):
+        """members that are arrays or structs: s.fa[i], s.fn.f, copies of a member struct, pointers into a member array"""
+        r = self.r
+        cands = [(n, sid) for n, sid in sc["structs"].items() if any(f["t"]["k"] in ("a", "s") for f in self.structs[sid - 1]["fields"])]
+        if not cands:
+            return []
+        sname, sid = r.choice(cands)
+        out = []
+        for f in self.structs[sid - 1]["fields"]:
+            if f["t"]["k"] == "a":
+                t, ln = f["t"]["t"]["n"], f["t"]["n"]
+                m = mem(var(sname), f["n"])
+                j = r.randrange(ln)
+                out += [s_asg(r.choice(["=", "=", "^=", "|="]), idx(m, lit("int", j)), self.expr(sc, 2)), s_obs(idx(m, lit("int", j))),
+                        s_obs(sizeof_(m)), s_obs(idx(m, lit("int", r.randrange(ln))))]
+                if r.random() < 0.5:
+                    pn = self.fresh("np")
+                    k = r.randrange(ln)
+                    out += [s_decl(pn, P(T(t)), i_e(addr(idx(m, lit("int", k))))), s_obs(bin_("-", var(pn), addr(idx(m, lit("int", 0))))),
+                            s_asg("=", deref(var(pn)), self.lit_for(t)), s_obs(idx(m, lit("int", k)))]
+            elif f["t"]["k"] == "s":
+                isid = f["t"]["id"]
+                m = mem(var(sname), f["n"])
+                g = r.choice(self.ifields(isid))
+                out += [s_asg("=", mem(m, g["n"]), self.expr(sc, 2))] + [s_obs(mem(m, x["n"])) for x in self.ifields(isid)]
+                others = [n for n, q in sc["structs"].items() if q == isid]
+                if others:
+                    o = r.choice(others)
+                    out += [s_asg("=", m, var(o))] if r.random() < 0.5 else [s_asg("=", var(o), m)]
+                    out += [s_obs(mem(m, x["n"])) for x in self.ifields(isid)] + [s_obs(mem(var(o), x["n"])) for x in self.ifields(isid)]
+        if r.random() < 0.5:
+            # a copy of the whole struct carries the nested members
+            t = self.fresh("nt")
+            out += [s_decl(t, St(sid), i_e(var(sname)))]
+            for f in self.structs[sid - 1]["fields"]:
+                if f["t"]["k"] == "a":
+                    out.append(s_obs(idx(mem(var(t), f["n"]), lit("int", r.randrange(f["t"]["n"])))))
+                elif f["t"]["k"] == "s":
+                    out += [s_obs(mem(mem(var(t), f["n"]), x["n"])) for x in self.ifields(f["t"]["id"])[:2]]
+        return [s_block(out)]
+
     def empty_scope(self):
         return {"ints": {}, "arrs": {}, "structs": {}, "ptrs": {}, "ro": set()}
 
@@ -512,6 +559,13 @@ class Gen:
                     if W[t] == 64 and bw <= 32:
                         bw = r.choice([33, 40, 63, 64])      # promotion of a narrower long bit-field is implementation-defined (gcc: int, clang/cproc: long)
                 fields.append(("f%d" % j, T(t), bw))
+            if r.random() < 0.5:
+                # nested members, behind a plain 8-byte member so that they never share a storage unit with a bit-field
+                fields.append(("fsep", T(r.choice(["long", "ulong", "llong"])), 0))
+                if r.random() < 0.7:
+                    fields.append(("fa", A(T(r.choice(ALL)), r.randrange(2, 5)), 0))
+                if self.structs and r.random() < 0.6:
+                    fields.append(("fn", St(r.randrange(1, len(self.structs) + 1)), 0))
             self.structs.append(struct("S%d" % (len(self.structs) + 1), fields))
         for _ in range(r.randrange(2, 6)):
             n, t = self.fresh("g"), r.choice(ALL)
@@ -523,7 +577,7 @@ class Gen:
             g["arrs"][n] = (t, ln)
         for sid in range(1, len(self.structs) + 1):
             n = self.fresh("s")
-            fs = self.structs[sid - 1]["fields"]
+            fs = self.ifields(sid)
             self.globals.append(s_decl(n, St(sid), i_list([i_e(self.lit_for(f["t"]["n"], small=r.random() < 0.5)) for f in fs[:r.randrange(1, len(fs) + 1)]])))
             g["structs"][n] = sid
         for a, (t, ln) in list(g["arrs"].items()):
@@ -543,7 +597,7 @@ class Gen:
         for sid in range(1, len(self.structs) + 1):
             if r.random() < 0.7:
                 name, a, k = self.fresh("fs"), self.fresh("q"), self.fresh("q")
-                fld = r.choice(self.structs[sid - 1]["fields"])
+                fld = r.choice(self.ifields(sid))
                 sc = self.scope(g)
                 sc["ints"][k] = "int"
                 sc["structs"][a] = sid
@@ -556,7 +610,7 @@ class Gen:
         for sid in range(1, len(self.structs) + 1):
             if r.random() < 0.6:
                 name, p, k = self.fresh("fp_s"), self.fresh("q"), self.fresh("q")
-                flds = self.structs[sid - 1]["fields"]
+                flds = self.ifields(sid)
                 f1, f2 = r.choice(flds), r.choice(flds)
                 body = [s_asg(r.choice(["^=", "|=", "="]), mem(deref(var(p)), f1["n"]), bin_("+", cast(T("uint"), var(k)), lit("int", r.randrange(5)))),
                         s_obs(mem(deref(var(p)), f2["n"])), s_ret(cast(T("int"), mem(deref(var(p)), f1["n"])))]
@@ -657,7 +711,7 @@ class Gen:
         for a, (t, ln) in sc["arrs"].items():
             body.append(s_obs(idx(var(a), lit("int", ln - 1))))
         for s, sid in sc["structs"].items():
-            for f in self.structs[sid - 1]["fields"]:
+            for f in self.ifields(sid):
                 body.append(s_obs(mem(var(s), f["n"])))
         body.append(s_ret(bin_("&", self.expr(sc, 2), lit("int", 127))))
         return program(self.structs, self.globals, self.funcs + [func("main", T("int"), [], s_block(body))], charsigned)
